@@ -69,7 +69,7 @@ for k = 1, #fs do emit(fs[k]()) end
 // levels, goto continue, a modified copy of a for control variable
 func VerifH_C01_corpus_statement_shapes() {
 	n := nondetInt64("n")
-	which := verifChoose("shape", 5)
+	which := verifChoose("shape", 6)
 	N := IntValue(n)
 	var src string
 	var want []Value
@@ -149,6 +149,24 @@ while true do w = w + 1; if w > 2 then break end end
 emit(w)
 `
 		want = []Value{IntValue(1), IntValue(10 + n), IntValue(2), IntValue(20 + n), IntValue(3), IntValue(30 + n), IntValue(3), IntValue(3), IntValue(1), IntValue(3)}
+	case 5:
+		// every expression of a list is evaluated, also the ones whose values
+		// are thrown away by the adjustment (§3.3.3)
+		src = `
+local n = ...
+local function f(tag) emit(tag) return tag end
+local a = f(1), f(2), f(n)
+emit("a", a)
+local b, c
+b, c = f(3), f(4), f(5)
+emit("bc", b, c)
+local t = {}
+t.x = f(6), f(7)
+emit("t", t.x)
+`
+		want = []Value{IntValue(1), IntValue(2), N, StringValue("a"), IntValue(1),
+			IntValue(3), IntValue(4), IntValue(5), StringValue("bc"), IntValue(3), IntValue(4),
+			IntValue(6), IntValue(7), StringValue("t"), IntValue(6)}
 	}
 	trace, _, err := vhRunChunk(src, N)
 	verifAssert(err == nil, "runs")
